@@ -103,7 +103,7 @@ func (c11) Generate(seed uint64, tier string, index int) any {
 			ls = append(ls, listedSrc{Name: l.Name, Entry: *e})
 		}
 	}
-	sc.Dst = g.PriorDest(ls, false, 0)
+	sc.Dst = g.PriorDest(ls, true, 0)
 	for i := range sc.Dst.Entries {
 		e := &sc.Dst.Entries[i]
 		if e.Type == "f" && g.R.Bool() {
